@@ -47,6 +47,8 @@ def _leaf(fam):
         # the Event fired at class level through a subclass that inherits it (the instances belong to the base class)
         st.tuples(st.just("cls_event"), t, st.sampled_from(["set", "update", "trigger"])),
         st.tuples(st.just("slot"), t, st.sampled_from(["bounds", "doc"]), st.integers(0, 3)),
+        # the *value* of num (the parameter whose bounds / doc have watchers of their own)
+        st.tuples(st.just("setnum"), t, st.integers(0, 10)),
     ).map(list)
 
 
@@ -76,6 +78,8 @@ def _case(draw):
             w["names"] = [4]                                # a watcher of a Parameter attribute of `num` (bounds / doc)
         elif draw(st.integers(0, 4)) == 0:
             w["names"] = sorted(set(w["names"]) | {3})     # also watches the Event parameter
+        elif draw(st.integers(0, 3)) == 0:
+            w["names"] = sorted(set(w["names"]) | {4})     # also watches the value of num
     prog = draw(st.lists(_tree(fam), min_size=1, max_size=5))
     if draw(st.integers(0, 3)) == 0:
         # a batch whose events are all for ONE parameter: first the value it already has (only unfiltered watchers
@@ -86,6 +90,20 @@ def _case(draw):
         prog.insert(draw(st.integers(0, len(prog))), ["batch", t_, [["set", t_, n_, v_]]])
         prog.insert(draw(st.integers(0, len(prog))),
                     ["batch", t_, [["set", t_, n_, v_], ["set", t_, n_, draw(val_strategy(fam))]]])
+    if draw(st.integers(0, 3)) == 0:
+        # one batch raises events of two kinds for ONE parameter: its value and one of its attributes (bounds / doc), each
+        # with a watcher of its own
+        t_ = draw(st.integers(0, 1))
+        which = draw(st.sampled_from(["bounds", "doc"]))
+        base = {"target": t_, "onlychanged": draw(st.booleans()), "queued": draw(st.booleans()), "precedence": draw(st.integers(0, 2)),
+                "mode": "args", "script": []}
+        ws.append(dict(base, names=sorted({4} | set(draw(st.sets(st.integers(0, 2), max_size=1)))), what="value"))
+        ws.append(dict(base, names=[4], what=which, precedence=draw(st.integers(0, 2))))
+        kids = [["setnum", t_, draw(st.integers(2, 10))], ["slot", t_, which, draw(st.integers(1, 3))]]
+        if draw(st.booleans()):
+            kids.reverse()
+        kids.insert(draw(st.integers(0, 2)), draw(_leaf(fam)))
+        prog.insert(draw(st.integers(0, len(prog))), ["batch", t_, kids])
     links = None
     if draw(st.integers(0, 2)) == 0:
         # a second, small scenario for "update(...) as a context manager restores the previous values AND links"
@@ -111,6 +129,8 @@ def _case(draw):
             "same_precedence": draw(st.booleans()),
             "outer": draw(st.sampled_from([None, None, "batch", "update"])),
             "rounds": draw(st.integers(1, 2)),
+            # what the second watcher does: a discard block, param.trigger('c'), or both
+            "second_does": draw(st.sampled_from(["discard", "discard", "trigger", "both"])),
         }
     return {"fam": fam, "watchers": ws, "prog": prog, "links": links, "cb_discard": cbd}
 
@@ -139,7 +159,7 @@ def _names(spec):
 class Model:
     def __init__(self, specs):
         self.specs = specs
-        self.vals = [{n: 0 for n in NAMES}, {n: 0 for n in NAMES}]
+        self.vals = [dict({n: 0 for n in NAMES}, num=1), dict({n: 0 for n in NAMES}, num=1)]
         self.stack = [[], []]          # per target: open context kinds ('batch' | 'discard')
         self.pending = [{}, {}]        # per target: w -> {name: dict(new, typ)}
         self.touched = [set(), set()]  # names set (by anything) since the outermost context opened
@@ -262,6 +282,13 @@ def execute(case):
             exp = {}
             model.set(t, NAMES[node[2]], v, exp)
             setattr(obj, NAMES[node[2]], v)
+            window("set", t, exp)
+        elif kind == "setnum":
+            begin()
+            exp = {}
+            model.set(t, "num", node[2], exp)
+            obj.num = node[2]
+            model.labels.add("value_of_num_set_inside_context" if model.stack[t] else "value_of_num_set")
             window("set", t, exp)
         elif kind == "cls_event":
             begin()
@@ -492,17 +519,23 @@ def _cb_discard_scenario(res, c):
             rnd["n"] += 1
             o.b = ("b", v, rnd["k"], rnd["n"])          # a fresh, unequal value every time
 
+    does = c.get("second_does", "discard")
+
     def second(*evs):
-        with discard_events(o):
-            for v in c["discard_sets"]:
-                rnd["n"] += 1
-                o.c = ("c", v, rnd["k"], rnd["n"])
+        if does in ("discard", "both"):
+            with discard_events(o):
+                for v in c["discard_sets"]:
+                    rnd["n"] += 1
+                    o.c = ("c", v, rnd["k"], rnd["n"])
+        if does in ("trigger", "both"):
+            o.param.trigger("c")
 
     o.param.watch(first, "a", queued=c["first_queued"], precedence=0)
     o.param.watch(second, "a", queued=c["second_queued"], precedence=0 if c["same_precedence"] else 1)
-    o.param.watch(lambda *evs: log.append(("b", [e.new for e in evs])), "b")
-    o.param.watch(lambda *evs: log.append(("c", [e.new for e in evs])), "c")
+    o.param.watch(lambda *evs: log.append(("b", [e.new for e in evs], [e.type for e in evs])), "b")
+    o.param.watch(lambda *evs: log.append(("c", [e.new for e in evs], [e.type for e in evs])), "c")
     res.label("cb_discard:first_queued" if c["first_queued"] else "cb_discard:first_immediate")
+    res.label("cb_discard:second_does_" + does)
     for k in range(1, c["rounds"] + 1):
         del log[:]
         rnd["k"] = k
@@ -517,7 +550,18 @@ def _cb_discard_scenario(res, c):
             o.a = k
         bcalls = [e for e in log if e[0] == "b"]
         ccalls = [e for e in log if e[0] == "c"]
-        if ccalls:
+        if does != "discard":
+            # the trigger issued by the second watcher announces c (its current value) once, as 'triggered' - and concerns c only
+            if len(ccalls) != 1 or ccalls[0][1][-1] is not o.c:
+                res.fail("C04.missing_call" if not ccalls else "C04.watcher_called_twice",
+                         f"cb_discard {c!r}, round {k}: param.trigger('c') issued by a watcher: deliveries for c {ccalls!r}, c is {o.c!r}")
+            elif c["outer"] is None and not c["second_queued"] and ccalls[0][2] != ["triggered"]:
+                # (a queued watcher runs inside a batch of its own: a trigger issued there is KF-C04-1's subject)
+                res.fail("C04.event_type", f"cb_discard {c!r}, round {k}: the triggered event for c has type {ccalls[0][2]!r}")
+            if any(ty == "triggered" for e in bcalls for ty in e[2]):
+                res.fail("C04.event_type", f"cb_discard {c!r}, round {k}: the assignment of b made by the first watcher was delivered "
+                                           f"as 'triggered' because another watcher triggered c meanwhile: {bcalls!r}")
+        elif ccalls:
             res.fail("C04.discarded_event_delivered", f"cb_discard {c!r}, round {k}: the watcher of c was called for assignments made "
                                                       f"inside discard_events: {ccalls!r}")
         if not bcalls:
